@@ -27,7 +27,7 @@ for _i in range(1, 21):
 
 # properties whose check has been integrated and verified by the integrator (others stay under not_applicable
 # even if a props/<id>.py with META exists - it may be work in progress)
-READY = {"C01", "C02", "C03", "C04", "C05", "C06", "C07", "C09", "C10", "C11", "C12", "C13", "C14", "C15", "C16", "C17", "C18", "C19", "C20"}
+READY = {"C%02d" % i for i in range(1, 21)}
 
 
 def _load_overrides():
